@@ -58,21 +58,19 @@ func ParseJWT(data []byte) (*JWT, error) {
 }
 
 func (j JWT) HeaderAttributes() []Attribute {
-	var attrs []Attribute
-	for k, v := range j.Header {
-		if param, ok := jwtParams[k]; ok {
-			if value := param.convert(v); value != "" {
-				attrs = append(attrs, Attribute{Name: param.description, Value: value})
-			}
-		}
-	}
-	return attrs
+	return jwtAttributes(j.Header)
 }
 
 func (j JWT) PayloadAttributes() []Attribute {
+	return jwtAttributes(j.Payload)
+}
+
+// jwtAttributes lists the registered fields present in m in the order of jwtParams
+// (ranging over the map would list them in a different order on every run).
+func jwtAttributes(m map[string]any) []Attribute {
 	var attrs []Attribute
-	for k, v := range j.Payload {
-		if param, ok := jwtParams[k]; ok {
+	for _, param := range jwtParams {
+		if v, ok := m[param.name]; ok {
 			if value := param.convert(v); value != "" {
 				attrs = append(attrs, Attribute{Name: param.description, Value: value})
 			}
@@ -82,30 +80,31 @@ func (j JWT) PayloadAttributes() []Attribute {
 }
 
 type jwtParam struct {
+	name        string
 	description string
 	convert     func(any) string
 }
 
-var jwtParams = map[string]jwtParam{
+var jwtParams = []jwtParam{
 	// header
-	"alg":      {"Signature Algorithm", sigAlg},
-	"typ":      {"Type", str},
-	"jku":      {"JWK Set URL", str},
-	"jwk":      {"JSON Web Key", str},
-	"kid":      {"Key Id", str},
-	"x5u":      {"X.509 URL", str},
-	"x5c":      {"X.509 Certificate Chain", str},
-	"x5t":      {"X.509 Thumbprint (SHA1)", str},
-	"x5t#S256": {"X.509 Thumbprint (SHA256)", str},
+	{"alg", "Signature Algorithm", sigAlg},
+	{"typ", "Type", str},
+	{"jku", "JWK Set URL", str},
+	{"jwk", "JSON Web Key", str},
+	{"kid", "Key Id", str},
+	{"x5u", "X.509 URL", str},
+	{"x5c", "X.509 Certificate Chain", str},
+	{"x5t", "X.509 Thumbprint (SHA1)", str},
+	{"x5t#S256", "X.509 Thumbprint (SHA256)", str},
 
 	// claims
-	"aud": {"Audience", str},
-	"exp": {"Expiration", unixTime},
-	"iat": {"Issued At", unixTime},
-	"iss": {"Issuer", str},
-	"jti": {"JWT Id", str},
-	"nbf": {"Not Before", unixTime},
-	"sub": {"Subject", str},
+	{"aud", "Audience", str},
+	{"exp", "Expiration", unixTime},
+	{"iat", "Issued At", unixTime},
+	{"iss", "Issuer", str},
+	{"jti", "JWT Id", str},
+	{"nbf", "Not Before", unixTime},
+	{"sub", "Subject", str},
 }
 
 func sigAlg(o any) string {
